@@ -48,6 +48,8 @@ func emitHDL(m *procbuilder.Machine, src []string, opt bool) {
 			// record the destination registers the way basm does: through each opcode's own
 			// HLAssemblerNormalize on the program's lines
 			node := "/bm:cps/id:0"
+			rg.Requirement(bmreqs.ReqRequest{Node: "/", T: bmreqs.ObjectSet, Name: "bm", Value: "cps", Op: bmreqs.OpAdd})
+			rg.Requirement(bmreqs.ReqRequest{Node: "/bm:cps", T: bmreqs.ObjectSet, Name: "id", Value: "0", Op: bmreqs.OpAdd})
 			for _, l := range src {
 				f := strings.Fields(l)
 				if len(f) == 0 {
@@ -219,9 +221,20 @@ func genProgram(r *common.Rng, s archSpec) []string {
 			hasJ = true
 		}
 	}
+	hasRset := false
+	for _, o := range s.ops {
+		if o == "rset" {
+			hasRset = true
+		}
+	}
 	var lines []string
 	for i := 0; i < n; i++ {
 		op := s.ops[r.Intn(len(s.ops))]
+		if hasRset && i < (1<<uint(s.r)) && i < n/2 && r.Chance(3, 4) {
+			// load the registers first so that arithmetic does not just shuffle zeros
+			lines = append(lines, "rset r"+strconv.Itoa(i)+" "+genValue(r, s.rsize))
+			continue
+		}
 		if i == n-1 && hasJ {
 			op = "j" // never fall off the end of the program
 		}
